@@ -4,7 +4,8 @@ use crate::{
     decl_engine::parsed_id::ParsedDeclId,
     fuel_prelude::fuel_tx::StorageSlot,
     ir_generation::{
-        const_eval::compile_constant_expression_to_constant, storage::serialize_to_storage_slots,
+        const_eval::compile_constant_expression_to_constant,
+        storage::{contains_array, serialize_to_storage_slots},
     },
     language::{
         parsed::StorageDeclaration,
@@ -124,7 +125,23 @@ impl ty::TyStorageField {
             None,
             &self.initializer,
         )
-        .map(|constant| serialize_to_storage_slots(context, &constant, &self.path(), key))
+        .and_then(|constant| {
+            // The serialization of arrays is not implemented yet.
+            if contains_array(constant.get_content(context)) {
+                return Err(CompileError::Unimplemented {
+                    feature: "Initializing a storage field with a value that is or contains an array"
+                        .to_string(),
+                    help: vec![],
+                    span: self.initializer.span.clone(),
+                });
+            }
+            Ok(serialize_to_storage_slots(
+                context,
+                &constant,
+                &self.path(),
+                key,
+            ))
+        })
     }
 
     pub(crate) fn get_key_expression_const(
